@@ -121,13 +121,18 @@ def detect(base, cur_inv, cur_txt):
             sr_ = _seg_renames(m, n_)       # (a type that mentions itself, e.g. a linked node: compare after mapping the candidate's own name back)
             return bool(sr_) and _sub(json.dumps(_shape(c_adts[n_])), sr_) == json.dumps(_shape(b_adts[m]))
         cands = [n for n in new if same_shape(n)]
-        cands = [n for n in cands if _seg_renames(m, n) or n.rsplit('::', 1)[-1] == m.rsplit('::', 1)[-1]]
+        cands = [n for n in cands if _seg_renames(m, n) or n.rsplit('::', 1)[-1] == m.rsplit('::', 1)[-1] or _shape(c_adts[n]) == _shape(b_adts[m])]
         if len(cands) == 1:
             sr = _seg_renames(m, cands[0])
             if not (sr and accept(sr, 'type %s has the shape of %s' % (cands[0], m))):
                 if cands[0].rsplit('::', 1)[-1] == m.rsplit('::', 1)[-1]:
                     paths.append((cands[0], m))
                     log.append('%s moved to %s (same name, same shape; the full path is mapped back)' % (m, cands[0]))
+                elif _shape(c_adts[cands[0]]) == _shape(b_adts[m]) and sum(1 for n_ in new if _shape(c_adts[n_]) == _shape(b_adts[m])) == 1 and \
+                        sum(1 for m_ in missing if _shape(b_adts[m_]) == _shape(b_adts[m])) == 1 and (len(b_adts[m]['variants']) > 1 or len(b_adts[m]['variants'][0][1]) > 1):
+                    # moved AND renamed at once: the only type that went missing with this shape, the only new one that has it
+                    paths.append((cands[0], m))
+                    log.append('%s was renamed and moved to %s (the only new type with its shape; the full path is mapped back)' % (m, cands[0]))
     if paths:
         c_adts = {_subpaths(p_, paths): a_ for p_, a_ in c_adts.items()}
     # 2. fields / variants of ADTs present in both (after 1.)
@@ -145,7 +150,7 @@ def detect(base, cur_inv, cur_txt):
             if len(bf) != len(cf):
                 continue
             for (bn, bt), (cn, ct) in zip(bf, cf):
-                if bn != cn and _sub(ct, list(ren.items())) == bt and bn not in [x for x, _ in cf]:
+                if bn != cn and _sub(_subpaths(ct, paths), list(ren.items())) == bt and bn not in [x for x, _ in cf]:
                     if cn in vocab or not IDENT.fullmatch(cn) or not IDENT.fullmatch(bn):      # (tuple field <-> named field: `0` is not an identifier)
                         # the new name already means something elsewhere: rename this field only where it is used as a field of this type
                         structured.append((p, cn, bn))
